@@ -201,6 +201,61 @@ def ob_reader_accepts(c, v, cuts, empties, chunks, negs, codec_present, ci, use_
     return True, ""
 
 
+def ob_append_foreign(c, v, cuts, codec_present, ci, ai, si):
+    """appending with the real Writer to a layout-valid file from an independent writer (codec key present or
+    absent = null; the appending call asks for any codec): the result is still a layout-valid file of the ORIGINAL
+    codec holding the old records followed by the new ones"""
+    try:
+        recs = _records(c, v)
+    except OutOfDomain:
+        return True, "out of domain"
+    if not (0 <= ci < 4) or not (0 <= ai < 4) or si < 1 or not recs:
+        return True, "out of domain"
+    codec_name, asked = CODECS[0], CODECS[0]
+    for i, x in enumerate(CODECS):
+        if ci == i:
+            codec_name = x
+        if ai == i:
+            asked = x
+    if not codec_present:
+        codec_name = "null"
+    marker = MARKERS[0]
+    old, new = recs[:1], recs[1:]
+    try:
+        fo, counts, hl, tl = _indep_file(c, old, cuts, (False, False, False), (9, 0), (False, False, False), codec_present,
+                                         codec_name, marker)
+    except OutOfDomain:
+        return True, "out of domain"
+    try:
+        fo.seek(0, 2)
+        w = W.Writer(fo, None, codec=asked, sync_interval=si)
+        for r in new:
+            w.write(r)
+        w.flush()
+    except Exception as e:
+        return False, f"appending to a foreign file (codec {codec_name}, key present={codec_present}) with codec={asked} raised {type(e).__name__}: {e}"
+    want = [codec.normalise(c["ir"], d, c["names"], rt.f32) for d in recs]
+    try:
+        if rt.tokmode():
+            p = container.parse_tokens(fo.toks, _unwrap)
+        else:
+            p = container.parse_bytes(fo.getvalue())
+        got = container.records_of(p, c["ir"], c["names"], rt.tokmode())
+    except (container.LayoutError, codec.SpecError, UnicodeDecodeError, ValueError, IndexError, KeyError, EOFError) as e:
+        return False, (f"after appending with codec={asked} to a foreign {codec_name} file (codec key present={codec_present}) an independent "
+                       f"parser rejects the file: {type(e).__name__}: {e}")
+    if not _same(got, want):
+        return False, f"after appending, an independent parser reads {got!r}, expected {want!r}"
+    fo.seek(0)
+    try:
+        got2 = list(R.reader(fo))
+    except Exception as e:
+        return False, f"after appending with codec={asked} to a foreign {codec_name} file the reader raises {type(e).__name__}: {e}"
+    if not _same(got2, want):
+        return False, f"after appending, the reader returns {got2!r}, expected {want!r}"
+    return True, ""
+
+
 def harnesses(tier, seed):
     from vf.ch import Harness
     import zlib
@@ -229,6 +284,12 @@ def harnesses(tier, seed):
             ps = f"v: List[{a}], cuts: Tuple[{nb}], empties: Tuple[{nb}, bool]" + (", present: bool, ci: int" if th else "")
             hs.append(Harness(f"layout.{rn}.blocks.{name}", "props.l5", ps, call + "[0]", replay_call=call, setup=setup,
                               what=f"{rn} on independently written files of {name} (block structure)"))
+        # (iii) append with the real Writer to an independently written file
+        if th or name in ("rec_flat", "prim_int", "union_prims", "rec_empty"):
+            call = "ob_append_foreign(C, v, (False, False), present, ci, ai, si)"
+            ps = f"v: List[{a}], present: bool, ci: int, ai: int, si: int"
+            hs.append(Harness(f"layout.append_foreign.{name}", "props.l5", ps, call + "[0]", replay_call=call, setup=setup,
+                              what=f"append to an independently written file of {name}"))
         # (ii) header chunking symbolic over a one-record file (once per schema, reader only)
         call = "ob_reader_accepts(C1, [], (False, False), (False, False, False), chunks, negs, present, ci, ub)"
         ps = "chunks: Tuple[int, int], negs: Tuple[bool, bool, bool], present: bool, ci: int, ub: bool"
